@@ -8,7 +8,7 @@ import urllib.parse
 import common
 from common import Check, sx, hist
 import fileh
-from fileh import RecordingSource, canon_ctx, deep_sxstr
+from fileh import RecordingSource, decision, deep_sxstr
 from vinegar.transform import get_transformation_chain
 
 # find_system table of the recording data source: (key, tag(value)) -> answer (values are typed, see fileh.tag)
@@ -215,10 +215,10 @@ class C06(Check):
         if self._tree:
             return
         self._tree = True
-        fileh.write_file("file.tpl", fileh.DUMP_TEMPLATE)
+        fileh.write_file("file.tpl", fileh.dump_file(fileh.base_dir() + "/file.tpl"))
         for name in ["a", "b", "x", "A", "bb/a", "pre-a", "ab", "a-suf"]:
-            fileh.write_file("root/" + name, fileh.DUMP_TEMPLATE)
-            fileh.write_file("root/" + name + ".j2", fileh.DUMP_TEMPLATE)
+            fileh.write_file("root/" + name, fileh.dump_file(fileh.base_dir() + "/root/" + name))
+            fileh.write_file("root/" + name + ".j2", fileh.dump_file(fileh.base_dir() + "/root/" + name + ".j2"))
         self._files_root = fileh.regular_files_below("root")
         self._files_file = [fileh.base_dir() + "/file.tpl"]
 
@@ -355,6 +355,9 @@ class C06(Check):
 
     def parse_result(self, cls, body, src, template):
         tc = []
+        served = []
+        if cls == fileh.CONTENT and not template:
+            served = [fileh.served_from_raw(body) or "?unmarked"]
         if cls == fileh.CONTENT and template:
             try:
                 d = json.loads(body.decode("utf-8"))
@@ -362,9 +365,11 @@ class C06(Check):
                     return x if isinstance(x, str) else "?" + repr(x)
                 tc = [[val(k) for k in d["keys"]], [val(d["id"])] if "id" in d else [],
                       [val(d["data"])] if "data" in d else [], val(d["uri"])]
+                served = [val(d.get("name"))]
             except Exception:
                 tc = [["?unparsable"], [], [], ""]
-        return [[list(x) for x in src.log], cls, tc]
+                served = ["?unparsable"]
+        return [[list(x) for x in src.log], cls, tc, served]
 
     def impl(self, c):
         return self.impl_on(self.handler(c["cfg"], c["tftp"]), self.handler(c["cfg"], False) if c["tftp"] else None, c)
@@ -383,7 +388,6 @@ class C06(Check):
             # the request travels through the real HttpServer / TftpServer; a recording front in the server's handler
             # list notes the context the handler computed from what the server passed on
             _seen, ctx, can, cls, body = fileh.via_server(h, tftp, c.get("wire", uri))
-            ctx = ctx if ctx is not None else {"matches": False}
             hres = [self.parse_result(cls, body, src, cfg["template"])] if can else []
         else:
             ctx = h.prepare_context(uri)
@@ -397,20 +401,16 @@ class C06(Check):
             hh.set_data_source(src2)
             ctx2 = hh.prepare_context(nf)
             can2 = bool(hh.can_handle(nf, ctx2))
-            par = [nf, canon_ctx(ctx2), [self.do_handle(hh, False, nf, ctx2, src2, cfg["template"])] if can2 else []]
-        return [True, canon_ctx(ctx), can, hres, par, dec]
+            par = [nf, decision(can2), [self.do_handle(hh, False, nf, ctx2, src2, cfg["template"])] if can2 else []]
+        return [True, decision(can), can, hres, par, dec]
 
-    def line(self, c, obs):
+    def line(self, c, obs, raws=()):
         cfg = c["cfg"]
         files = self._files_file if cfg["filemode"] else self._files_root
         ttable = []
         if cfg.get("chain"):
-            # oracle for the transformation chain: the real chain, called directly, on the raw values that occur
-            raws = []
-            if obs[1][1]:
-                raws.append(obs[1][1][0])
-            if obs[4] and obs[4][1][1] and obs[4][1][1][0] not in raws:
-                raws.append(obs[4][1][1][0])
+            # oracle for the transformation chain: the real chain, called directly, on the lookup value that the matching
+            # rule extracts from this request (asked from the driver in a first pass, see lines_for)
             fn = get_transformation_chain(cfg["chain"])
             rows = []
             for v in raws:
@@ -431,6 +431,19 @@ class C06(Check):
         return ("(" + sx(c["tftp"]) + " " + sx(bool(c.get("old2f"))) + " " + const[0] + " " + sx(deep_sxstr(ttable))
                 + " " + const[1] + " " + sx(c["uri"]) + " " + sx(self.canon(obs)) + ")")
 
+    def lines_for(self, pairs):
+        """driver lines for (case, observation) pairs; for configurations whose transformation chain is an oracle table a
+        first pass asks the driver which lookup value the matching rule extracts, then the real chain is asked for it"""
+        need = [k for k, (c, _o) in enumerate(pairs) if c["cfg"].get("chain")]
+        raws = {}
+        if need:
+            first = common.run_model(self.ident, [self.line(pairs[k][0], pairs[k][1]) for k in need])
+            for k, res in zip(need, first):
+                r = common.unsx(res)
+                vals = r[5] if len(r) > 5 else []
+                raws[k] = [v.decode("latin-1") if isinstance(v, bytes) else "".join(map(chr, v)) for v in vals]
+        return [self.line(c, o, raws.get(k, ())) for k, (c, o) in enumerate(pairs)]
+
     def canon(self, obs):
         if isinstance(obs, HistObs):
             return [deep_sxstr(o) for o in obs]
@@ -441,8 +454,15 @@ class C06(Check):
         out = [None] * len(cases)
         plain = [(i, c) for i, c in enumerate(cases) if "hist" not in c]
         if plain:
-            for (i, _), r in zip(plain, super().evaluate([c for _, c in plain])):
-                out[i] = r
+            pcs = [c for _, c in plain]
+            obs = [self.impl(c) for c in pcs]
+            lines = self.lines_for(list(zip(pcs, obs)))
+            outs = common.run_model(self.ident, lines)
+            for (i, c), o, ln, res in zip(plain, obs, lines, outs):
+                if res.startswith("!") or res.startswith("#"):
+                    raise RuntimeError(f"C06: driver rejected case {ln[:300]} -> {res[:100]}")
+                r = common.unsx(res)
+                out[i] = (c, o, r[0], common.names(r[1]), common.names(r[2]), r[3:5])
         hist = [(i, c) for i, c in enumerate(cases) if "hist" in c]
         if hist:
             # every history gets fresh handler objects; each step is judged like a single request (the model is a
@@ -456,8 +476,9 @@ class C06(Check):
                     sc = dict(c, uri=u)
                     o = self.impl_on(h, hh, sc)
                     obs.append(o)
-                    lines.append(self.line(sc, o))
+                    lines.append((sc, o))
                 all_obs.append(obs)
+            lines = self.lines_for(lines)
             outs = common.run_model(self.ident, lines)
             pos = 0
             for (i, c), obs in zip(hist, all_obs):
